@@ -23,7 +23,7 @@ ORACLES = [('oracle_poses', 'check_jacobians', 60), ('oracle_poses', 'group_laws
            ('oracle_edges', 'check_edge_jacobians', 40), ('oracle_edges', 'measurement_model', 40), ('oracle_edges', 'frame_independence', 60),
            ('oracle_graph', 'gauss_newton_step', 100), ('oracle_graph', 'fixed_vertices', 100), ('oracle_graph', 'representation_independence', 100),
            ('oracle_graph', 'linear_optimum', 100), ('oracle_graph', 'purity', 60), ('oracle_graph', 'local_convergence', 100),
-           ('oracle_graph', 'stale_cache_sequences', 60), ('oracle_fd', 'fd_accuracy', 100), ('oracle_fd', 'paired_optimisations', 20)]
+           ('oracle_graph', 'stale_cache_sequences', 60), ('oracle_fd', 'fd_accuracy', 100), ('oracle_fd', 'paired_optimisations', 20), ('oracle_fd', 'handwritten_edges', 150)]
 
 if __name__ == '__main__':
     s0 = int(sys.argv[1]) if len(sys.argv) > 1 else 1
